@@ -20,6 +20,13 @@ CFGS = {
     "U3": dict(RtmpPubs=["p1"], RtspPubs=[], CustPubs=[], PsPubs=[], RtmpSubs=[], FlvSubs=[],
                PullRetry=0, PullAuto=-1, PullEnabled=False, Hook=False, Push=["t1"], ParamLen=70000),
     # small pull configurations whose whole state graph is replayed (edge cover)
+    # idle sweep (C16): wire publishers = real RTMP connections served by the server's own routine
+    "S0": dict(RtmpPubs=[], RtspPubs=[], CustPubs=[], PsPubs=[], RtmpSubs=["s1"], FlvSubs=[], WirePubs=["w1"], MaxSweep=3,
+               PullRetry=0, PullAuto=-1, PullEnabled=False, Hook=True),
+    "S1": dict(RtmpPubs=[], RtspPubs=[], CustPubs=[], PsPubs=[], RtmpSubs=["s1"], FlvSubs=["f1"], WirePubs=["w1", "w2"], MaxSweep=3,
+               PullRetry=0, PullAuto=-1, PullEnabled=False, Hook=True),
+    "S2": dict(RtmpPubs=["p1"], RtspPubs=[], CustPubs=["k1"], PsPubs=[], RtmpSubs=["s1"], FlvSubs=[], WirePubs=["w1"], MaxSweep=4,
+               PullRetry=0, PullAuto=-1, PullEnabled=False, Hook=False),
     "P0": dict(RtmpPubs=[], RtspPubs=[], CustPubs=[], PsPubs=[], RtmpSubs=["s1"], FlvSubs=[],
                PullRetry=1, PullAuto=-1, PullEnabled=True, Hook=False),
     "P4": dict(RtmpPubs=["p1"], RtspPubs=[], CustPubs=[], PsPubs=[], RtmpSubs=[], FlvSubs=[],
@@ -57,11 +64,13 @@ def write_cfg(cid, mode, max_tick, max_att):
         lines.append("  PipeComps <- %s" % ("PipeAll" if c.get("Outputs", False) else ("PipeHook" if c.get("Hook", True) else "PipeNone")))
     lines.append("  MaxTick = %d" % max_tick)
     lines.append("  MaxAttempts = %d" % max_att)
+    lines.append("  WirePubs = %s" % tla_set(c.get("WirePubs", [])))
+    lines.append("  MaxSweep = %d" % (c.get("MaxSweep", 0) if mode != "trace" else 1000000))
     lines.append("INVARIANTS " + INVS)
     if mode == "trace":
         lines += ["CONSTRAINT HighWater", "POSTCONDITION Accept", "CHECK_DEADLOCK FALSE"]
     else:
-        lines.append("PROPERTIES EmptyRemovedAct")
+        lines.append("PROPERTIES EmptyRemovedAct IdleDisconnectedAct")
         if mode != "sim":
             lines.append("VIEW View")
         if mode == "emit":
@@ -79,7 +88,7 @@ def drv_cfg(cid):
     return {"rtmpPubs": c["RtmpPubs"], "rtspPubs": c["RtspPubs"], "custPubs": c["CustPubs"], "psPubs": c["PsPubs"],
             "rtmpSubs": c["RtmpSubs"], "flvSubs": c["FlvSubs"], "pullRetry": c["PullRetry"],
             "pullAutoMs": (-1 if c["PullAuto"] < 0 else c["PullAuto"] * 700), "hook": c.get("Hook", True), "outputs": c.get("Outputs", False), "leak": 0,
-            "pushTargets": c.get("Push", []), "paramLen": c.get("ParamLen", 0)}
+            "pushTargets": c.get("Push", []), "paramLen": c.get("ParamLen", 0), "wirePubs": c.get("WirePubs", [])}
 
 
 def signature(r):
@@ -95,12 +104,12 @@ def signature(r):
 
 def run_lifecycle(ctx, bfs, emit, sim, leak=None):
     """bfs/emit: lists of (cid, max_tick, max_att); sim: (cid, max_tick, max_att, num, depth)."""
-    E.build_harness(ctx)
+    E.build_harness(ctx, tags="verif,verif_wire")
     scen = []
 
     def add(cid, steps):
         st = [{"name": a["name"], "x": a.get("x", ""), "expAttempts": a.get("obs", {}).get("attempts", 0),
-               "expNotif": len(a.get("obs", {}).get("notif", []))} for a in steps if a["name"] != "Halt"]
+               "expNotif": len(a.get("obs", {}).get("notif", [])), "expHook": len(a.get("obs", {}).get("hook", []))} for a in steps if a["name"] != "Halt"]
         scen.append({"sc": len(scen), "cfg": drv_cfg(cid), "cfgId": cid, "steps": st})
 
     for (cid, mt, ma) in bfs:
